@@ -229,7 +229,15 @@ class HttpWebServerPlugin(HttpProtocolHandlerPlugin):
                 self.pipeline_request.parse(remainder)
                 if not self.pipeline_request.is_complete:
                     break
-                self.route.handle_request(self.pipeline_request)
+                # Like the 1st request, a follow-up request
+                # is served by the route matching its path.
+                route = self._find_route(self.pipeline_request.path or b'/')
+                if route is None:
+                    self.client.queue(NOT_FOUND_RESPONSE_PKT)
+                    raise HttpProtocolException(
+                        'No route for pipelined request, will tear down request...',
+                    )
+                route.handle_request(self.pipeline_request)
                 if not self.pipeline_request.is_http_1_1_keep_alive:
                     raise HttpProtocolException(
                         'Pipelined request is not keep-alive, will tear down request...',
@@ -298,6 +306,15 @@ class HttpWebServerPlugin(HttpProtocolHandlerPlugin):
             else httpProtocolTypes.HTTPS \
             if self.encryption_enabled() \
             else httpProtocolTypes.HTTP
+
+    def _find_route(self, path: bytes) -> Optional[HttpWebServerBasePlugin]:
+        protocol = httpProtocolTypes.HTTPS \
+            if self.encryption_enabled() \
+            else httpProtocolTypes.HTTP
+        for route in self.routes[protocol]:
+            if route.match(text_(path)):
+                return self.routes[protocol][route]
+        return None
 
     def _try_route(self, path: bytes) -> bool:
         do_ws_upgrade, protocol = self._protocol
